@@ -15,7 +15,7 @@ def run(tier):
     res.assumptions = ["z3 (Real arithmetic, strict inequalities) is the reference for feasibility / entailment of the small systems the harness wrote itself",
                        "coefficients are small rationals: no 64-bit overflow"]
     exes = [build.driver("dbg", "net_drv"), build.driver("rel", "net_drv")]
-    total = 4800 if tier == "quick" else 30000
+    total = 4800 if tier == "quick" else 150000
     per = 50 if tier == "quick" else 200
     common.pmap(lra.work, [(exes, s, per, False, PID) for s in range(0, total, per)], res)
     res.gate("conflicts reached", res.counters.get("feature:conflict", 0) > 0)
